@@ -134,7 +134,8 @@ func (g *Gen) shapeOfSel(op *Op, sets [][]*Node, parents []string, typeName stri
 
 // childCtx extends the position context of a field's sub-selection: a = the value is of an abstract
 // type, n = it sits in a nullable or nested list (list wrapper message), r = it is the result of a
-// field resolver, o = nullable object, l = plain list.  Only used to describe failures.
+// field resolver, p = plain field below a field resolver's result, o = nullable object, l = plain list.
+// Only used to describe failures.
 func childCtx(s *Schema, ctx string, fd *FieldDef) string {
 	if fd.Name == "_entities" {
 		return ctx + "e"
@@ -142,6 +143,9 @@ func childCtx(s *Schema, ctx string, fd *FieldDef) string {
 	t := fd.Type
 	if fd.Resolver {
 		ctx += "r"
+	} else if fd.Requires == "" && strings.Contains(ctx, "r") {
+		// p = a plain (non-resolver) field somewhere below the result of a field resolver
+		ctx += "p"
 	}
 	if fd.Requires != "" {
 		ctx += "q"
